@@ -4,7 +4,7 @@
    Models: Synth/Derived.v (transcription of cc_generator.py; RNG / argsort / sklearn.resample are answer-stream
    oracles whose assumed behaviour the model checks on every answer; [Ok] = the call returns, [Raises] = the real
    call raises, [BadOracle] = an answer violates the assumed library behaviour or the call pattern). *)
-From Coq Require Import List ZArith QArith Qround Reals Permutation.
+From Coq Require Import List ZArith QArith Qround Reals Permutation Sorting.Sorted.
 From Outrank Require Import Synth.Corr Synth.Derived Synth.DerivedProofs.
 Import ListNotations.
 
@@ -118,6 +118,14 @@ Theorem C20_labels_class_sizes : forall d n p y, gen_labels d n p = Some y -> No
       = lenZ d - 1 - Qfloor (inject_Z (lenZ d - 1) * (pc / 100)).
 Proof. exact labels_class_sizes. Qed.
 
+(* class proportions match the requested distribution: tie-free decision values, non-decreasing cut percents pcs in
+   [0, 100] (cumulative requested proportions): classes 0..m together hold exactly floor((N-1) pcs_m / 100) + 1 items *)
+Theorem C20_labels_cumulative : forall d pcs m, NoDup d -> d <> [] ->
+  Forall (fun pc => (0 <= pc)%Q /\ (pc <= 100)%Q) pcs -> StronglySorted Qle pcs -> (m < length pcs)%nat ->
+  lenZ (filter (fun yi => yi <=? Z.of_nat m) (labels_of d (cut_points d pcs)))
+  = Qfloor (inject_Z (lenZ d - 1) * (nth m pcs 0%Q / 100)) + 1.
+Proof. exact labels_cumulative. Qed.
+
 (* fix b9eb3ad: a class distribution given as a sequence with n > 2 is honoured (cumulative sums of the requested proportions) *)
 Theorem C20_labels_ndarray_note : forall n ps,
   2 < n -> lenZ ps = n -> Qle_bool (qsum ps) 1 = true ->
@@ -190,6 +198,7 @@ Print Assumptions C20_labels_mono.
 Print Assumptions C20_labels_count.
 Print Assumptions C20_labels_prop.
 Print Assumptions C20_labels_class_sizes.
+Print Assumptions C20_labels_cumulative.
 Print Assumptions C20_labels_ndarray_note.
 Print Assumptions C20_noise_cat.
 Print Assumptions C20_noise_cat_check_sound.
